@@ -86,3 +86,33 @@ def execute_both(w, rel):
     a, _pa, _ra = mp.execute(w, rel, reverse=False)
     b, _pb, _rb = mp.execute(w, rel, reverse=True)
     return a, b
+
+
+def dedup_then_project(rng):
+    """A deduplication (DISTINCT / UNION) followed by a projection that drops a column on which surviving rows still
+    differ: over a leaf, a chain, a join; with sorts and slices around.  The projection must NOT be moved below the
+    deduplication."""
+    a, b, c = K(1), K(2), N(1)
+    cols = [a, b] if rng.random() < 0.6 else [a, b, c]
+    def rows():
+        out = []
+        for _ in range(rng.choice([2, 3, 4])):
+            r = {a: rng.choice([1, 1, 2]), b: rng.choice([10, 20, 30])}
+            if c in cols:
+                r[c] = 100 + r[a] + r[b]
+            out.append(r)
+        return out
+    l1 = ("leaf", 1, SQL, sorted(cols), rows(), (0, None))
+    l2 = ("leaf", 2, SQL, sorted(cols), rows(), (0, None))
+    shape = rng.choice(["chain", "chain", "leaf", "chain3"])
+    p = l1 if shape == "leaf" else ("chain", l1, l2)
+    if rng.random() < 0.3:
+        p = ("un", ("sel", ("cmp", "ge", ("ref", a), ("lit", 1))), mp.DEFAULT, p)
+    p = ("un", ("dedup",), mp.DEFAULT, p)
+    if rng.random() < 0.3:
+        p = ("un", ("slice", 0, 5), mp.DEFAULT, ("un", ("sort", total_sort_terms(rng, set(cols))), mp.DEFAULT, p))
+    keep = [a] if rng.random() < 0.7 else [x for x in cols if x != b]
+    p = ("un", ("proj", sorted(keep)), mp.DEFAULT, p)
+    if rng.random() < 0.12:
+        p = ("un", ("dedup",), mp.DEFAULT, p)
+    return p
